@@ -1125,3 +1125,297 @@ Example ex_labels_cumulative :
   lenZ (filter (fun yi => yi <=? 0) y) = 3 /\ lenZ (filter (fun yi => yi <=? 1) y) = 6 /\
   Qfloor (inject_Z 10 * ((20 # 1) / 100)) + 1 = 3 /\ Qfloor (inject_Z 10 * ((50 # 1) / 100)) + 1 = 6.
 Proof. vm_compute. repeat split; reflexivity. Qed.
+
+(* ------------------------------------------------------------------------------------------ *)
+(* labels with np.percentile as an oracle: what is true of the code, doubles included *)
+
+Lemma vindex_range N q : 1 <= N -> (0 <= q)%Q -> (q <= 1)%Q -> 0 <= Qfloor (inject_Z (N - 1) * q) <= N - 1.
+Proof.
+  intros HN H0 H1. assert (HM : (0 <= inject_Z (N - 1))%Q) by (rewrite <- (Zle_Qle 0); lia). split.
+  - change 0 with (Qfloor (inject_Z 0)). apply Qfloor_resp_le. change (inject_Z 0) with 0%Q. nra.
+  - rewrite <- (Qfloor_Z (N - 1)) at 2. apply Qfloor_resp_le. nra.
+Qed.
+
+Lemma bracket_count s a c : StronglySorted Z.lt s -> 0 <= a <= lenZ s - 1 -> bracket s a c = true ->
+  lenZ (filter (fun x => Qle_bool (inject_Z x) c) s) = a + 1.
+Proof.
+  intros Hs Ha Hb. unfold bracket in Hb. rewrite !andb_true_iff in Hb. destruct Hb as [[Hlo _] Hhi].
+  apply Qle_bool_iff in Hlo. unfold lenZ at 1. rewrite (count_sorted _ s (Z.to_nat a) Hs).
+  - lia.
+  - unfold lenZ in Ha. lia.
+  - intros x Hx. apply Qle_bool_iff. eapply Qle_trans; [|exact Hlo]. rewrite <- Zle_Qle. exact Hx.
+  - intros x Hl Hx. unfold lenZ in Ha.
+    assert (E : Z.min (a + 1) (lenZ s - 1) = a + 1) by (unfold lenZ; lia). rewrite E in Hhi.
+    assert (Hlt : nthZ s a < nthZ s (a + 1)).
+    { unfold nthZ. apply sorted_nth_lt; [exact Hs|lia|lia]. }
+    apply orb_true_iff in Hhi. destruct Hhi as [Hhi|Hhi]; [|lia].
+    apply qlt_bool_iff in Hhi.
+    destruct (Qle_bool (inject_Z x) c) eqn:E2; [|reflexivity]. apply Qle_bool_iff in E2. exfalso.
+    assert (H2 : (inject_Z (nthZ s (a + 1)) <= inject_Z x)%Q).
+    { rewrite <- Zle_Qle. unfold nthZ. replace (Z.to_nat (a + 1)) with (S (Z.to_nat a)) by lia. exact Hx. }
+    lra.
+Qed.
+
+(* the count the oracle contract pins down: floor+1, or one off when the virtual index is within 1e-9 of an integer *)
+Definition count_near (N : Z) (pc : Q) (cnt : Z) : Prop :=
+  let vi := (inject_Z (N - 1) * (pc / 100))%Q in
+  let j := Qfloor vi in
+  j <= cnt <= j + 2 /\ ((eps9 <= vi - inject_Z j)%Q /\ (vi - inject_Z j <= 1 - eps9)%Q -> cnt = j + 1).
+
+Lemma pc_unit pc : (0 <= pc)%Q -> (pc <= 100)%Q -> (0 <= pc / 100)%Q /\ (pc / 100 <= 1)%Q.
+Proof. intros H0 H1. split; [apply Qle_shift_div_l; [reflexivity|lra]|apply Qle_shift_div_r; [reflexivity|lra]]. Qed.
+
+Lemma cut_ok_count s pc c : StronglySorted Z.lt s -> s <> [] -> cut_ok s pc c = true ->
+  count_near (lenZ s) pc (lenZ (filter (fun x => Qle_bool (inject_Z x) c) s)).
+Proof.
+  intros Hs Hne H. unfold cut_ok in H. rewrite !andb_true_iff in H. destruct H as [[H0 H1] H].
+  apply Qle_bool_iff in H0, H1. destruct (pc_unit pc H0 H1) as [Hq0 Hq1].
+  assert (HN : 1 <= lenZ s) by (destruct s; [congruence|unfold lenZ; cbn [length]; lia]).
+  pose proof (vindex_range (lenZ s) (pc / 100) HN Hq0 Hq1) as Hj.
+  unfold count_near. set (vi := (inject_Z (lenZ s - 1) * (pc / 100))%Q) in *. set (j := Qfloor vi) in *.
+  rewrite !orb_true_iff in H. destruct H as [[H|H]|H].
+  - rewrite (bracket_count s j c Hs Hj H). split; [lia|]. intros _. reflexivity.
+  - rewrite !andb_true_iff in H. destruct H as [[Hg Hj1] Hb]. apply qlt_bool_iff in Hg.
+    rewrite (bracket_count s (j - 1) c Hs) by (try exact Hb; lia). split; [lia|]. intros [Hg1 _]. exfalso. lra.
+  - rewrite !andb_true_iff in H. destruct H as [[Hg Hj1] Hb]. apply qlt_bool_iff in Hg.
+    rewrite (bracket_count s (j + 1) c Hs) by (try exact Hb; lia). split; [lia|]. intros [_ Hg1]. exfalso. lra.
+Qed.
+
+Lemma forallb2_Forall2 {A B} (f : A -> B -> bool) l m : forallb2 f l m = true -> Forall2 (fun a b => f a b = true) l m.
+Proof.
+  revert m. induction l as [|a r IH]; intros [|b t] H; cbn [forallb2] in H; try discriminate; [constructor|].
+  apply andb_true_iff in H. destruct H as [H1 H2]. constructor; [exact H1|apply IH; exact H2].
+Qed.
+
+Lemma qsortedb_sorted l : qsortedb l = true -> StronglySorted Qle l.
+Proof.
+  induction l as [|a r IH]; intros H; [constructor|]. destruct r as [|b t]; [repeat constructor|].
+  cbn [qsortedb] in H. apply andb_true_iff in H. destruct H as [Hab Hr]. apply Qle_bool_iff in Hab.
+  specialize (IH Hr). constructor; [exact IH|]. inversion IH as [|? ? _ Hall]; subst.
+  constructor; [exact Hab|]. eapply Forall_impl; [|exact Hall]. intros z Hz. eapply Qle_trans; eassumption.
+Qed.
+
+Definition labels_selector (honour : bool) (n : Z) (p : pspec) : pspec :=
+  if honour then match p with PScalar q => if (2 <? n) && negb (Qeq_bool q (1 # 2)) then PList [] else p | _ => p end else p.
+
+(* C20_labels_class_sizes_partial: what generate_labels returns, for every answer of np.percentile within its contract *)
+Lemma gen_labels_o_spec honour d n p rperc rcuts y : gen_labels_o honour d n p rperc rcuts = Ok y -> NoDup d ->
+  exists req rp rc, requested_percents honour n p = Some req /\
+    rp = used_part n (labels_selector honour n p) rperc /\ rc = used_part n (labels_selector honour n p) rcuts /\
+    y = map (label rc) d /\
+    Forall2 (fun a b => qclose a b = true) rp req /\
+    Forall2 (fun pc c => count_near (lenZ d) pc (lenZ (filter (fun x => Qle_bool (inject_Z x) c) d))) rp rc /\
+    (qsortedb req = true -> StronglySorted Qle rc).
+Proof.
+  unfold gen_labels_o. destruct d as [|d0 dr] eqn:Ed; [discriminate|]. rewrite <- Ed.
+  destruct (requested_percents honour n p) as [req|]; [|discriminate].
+  fold (labels_selector honour n p).
+  set (rp := used_part n (labels_selector honour n p) rperc). set (rc := used_part n (labels_selector honour n p) rcuts).
+  destruct (forallb2 qclose rp req && forallb2 (cut_ok (sort d)) rp rc && (negb (qsortedb req) || qsortedb rc)) eqn:E; [|discriminate].
+  intros H Hnd. injection H as <-. rewrite !andb_true_iff in E. destruct E as [[E1 E2] E3].
+  exists req, rp, rc. split; [reflexivity|]. split; [reflexivity|]. split; [reflexivity|]. split; [reflexivity|].
+  split; [apply forallb2_Forall2; exact E1|]. split.
+  - apply forallb2_Forall2 in E2.
+    assert (Hs : StronglySorted Z.lt (sort d)).
+    { apply sorted_le_lt; [|apply sort_sorted]. eapply Permutation_NoDup; [symmetry; apply sort_perm|exact Hnd]. }
+    assert (Hne : sort d <> []).
+    { intros E. assert (Hp : Permutation (sort d) d) by apply sort_perm. rewrite E in Hp. apply Permutation_nil in Hp. subst d. discriminate. }
+    assert (HL : lenZ (sort d) = lenZ d) by (unfold lenZ; rewrite sort_length; reflexivity).
+    eapply Forall2_weaken; [|exact E2]. cbv beta. intros pc c Hc.
+    pose proof (cut_ok_count (sort d) pc c Hs Hne Hc) as Hcn. rewrite HL in Hcn.
+    unfold lenZ at 2. rewrite (filter_length_perm _ d (sort d)) by (symmetry; apply sort_perm). exact Hcn.
+  - intros Hq. rewrite Hq in E3. cbn [negb orb] in E3. apply qsortedb_sorted. exact E3.
+Qed.
+
+(* cumulative form: with non-decreasing cut points the classes 0..m hold exactly the items not above cut m *)
+Lemma labels_cumulative_count d rc m : StronglySorted Qle rc -> (m < length rc)%nat ->
+  lenZ (filter (fun yi => yi <=? Z.of_nat m) (map (label rc) d))
+  = lenZ (filter (fun x => Qle_bool (inject_Z x) (nth m rc 0%Q)) d).
+Proof.
+  intros Hs Hm. unfold lenZ. rewrite filter_map_length. f_equal. apply filter_ext_length. intros x _.
+  pose proof (label_gt_iff rc x Hs m Hm) as Hiff.
+  destruct (Z.leb_spec (label rc x) (Z.of_nat m)) as [Hle|Hgt].
+  - symmetry. apply Qle_bool_iff. apply Qnot_lt_le. intros Hlt. apply Hiff in Hlt. lia.
+  - symmetry. destruct (Qle_bool (inject_Z x) (nth m rc 0%Q)) eqn:E; [|reflexivity].
+    apply Qle_bool_iff in E. apply Hiff in Hgt. exfalso. eapply Qlt_not_le; eassumption.
+Qed.
+
+Lemma Forall2_nth {A B} (R : A -> B -> Prop) l m i da db : Forall2 R l m -> (i < length l)%nat -> R (nth i l da) (nth i m db).
+Proof.
+  intros H. revert i. induction H as [|a b l m Hab _ IH]; intros i Hi; cbn [length] in Hi; [lia|].
+  destruct i as [|i]; cbn [nth]; [exact Hab|apply IH; lia].
+Qed.
+
+Lemma Forall2_len {A B} (R : A -> B -> Prop) l m : Forall2 R l m -> length l = length m.
+Proof. induction 1; cbn [length]; congruence. Qed.
+
+(* C20_labels_cumulative_partial *)
+Lemma gen_labels_o_cumulative honour d n p rperc rcuts y : gen_labels_o honour d n p rperc rcuts = Ok y -> NoDup d ->
+  exists req rp, requested_percents honour n p = Some req /\ Forall2 (fun a b => qclose a b = true) rp req /\
+    (qsortedb req = true -> forall m, (m < length rp)%nat ->
+       count_near (lenZ d) (nth m rp 0%Q) (lenZ (filter (fun yi => yi <=? Z.of_nat m) y))).
+Proof.
+  intros H Hnd. destruct (gen_labels_o_spec _ _ _ _ _ _ _ H Hnd) as [req [rp [rc [Hreq [_ [_ [Hy [Hcl [Hcn Hsrt]]]]]]]]].
+  exists req, rp. split; [exact Hreq|]. split; [exact Hcl|]. intros Hq m Hm. specialize (Hsrt Hq).
+  assert (Hlen : length rc = length rp) by (symmetry; eapply Forall2_len; exact Hcn).
+  rewrite Hy. rewrite labels_cumulative_count by (try exact Hsrt; lia).
+  exact (Forall2_nth _ rp rc m 0%Q 0%Q Hcn Hm).
+Qed.
+
+(* ------------------------------------------------------------------------------------------ *)
+(* "class proportions match the requested distribution", literally *)
+
+Lemma div_bounds (cnt N : Z) (q k : Q) : 0 < N ->
+  (inject_Z cnt - inject_Z N * q <= k)%Q -> (- k <= inject_Z cnt - inject_Z N * q)%Q ->
+  (q - k / inject_Z N <= inject_Z cnt / inject_Z N)%Q /\ (inject_Z cnt / inject_Z N <= q + k / inject_Z N)%Q.
+Proof.
+  intros HN Hu Hl. assert (HNq : (0 < inject_Z N)%Q) by (rewrite <- (Zlt_Qlt 0); exact HN).
+  split.
+  - apply Qle_shift_div_l; [exact HNq|].
+    setoid_replace ((q - k / inject_Z N) * inject_Z N)%Q with (inject_Z N * q - k)%Q by (field; lra). lra.
+  - apply Qle_shift_div_r; [exact HNq|].
+    setoid_replace ((q + k / inject_Z N) * inject_Z N)%Q with (inject_Z N * q + k)%Q by (field; lra). lra.
+Qed.
+
+(* C20_labels_proportion: exact linear-interpolated percentile on tie-free data: the fraction of items not above the cut
+   differs from q by at most one element *)
+Lemma labels_proportion d q : NoDup d -> d <> [] -> (0 <= q)%Q -> (q <= 1)%Q ->
+  let cnt := lenZ (filter (fun x => Qle_bool (inject_Z x) (percentile (sort d) q)) d) in
+  (q - 1 / inject_Z (lenZ d) <= inject_Z cnt / inject_Z (lenZ d))%Q /\
+  (inject_Z cnt / inject_Z (lenZ d) <= q + 1 / inject_Z (lenZ d))%Q.
+Proof.
+  intros Hnd Hne H0 H1 cnt. unfold cnt. rewrite (labels_prop d q Hnd Hne H0 H1).
+  assert (HN : 1 <= lenZ d) by (destruct d; [congruence|unfold lenZ; cbn [length]; lia]).
+  set (N := lenZ d) in *. set (vi := (inject_Z (N - 1) * q)%Q).
+  pose proof (Qfloor_le vi) as Hf0. pose proof (Qlt_floor vi) as Hf1.
+  rewrite inject_Z_plus in Hf1. change (inject_Z 1) with 1%Q in Hf1.
+  assert (Evi : (vi == inject_Z N * q - q)%Q) by (unfold vi; rewrite inject_Z_sub; change (inject_Z 1) with 1%Q; ring).
+  apply div_bounds; [lia| |]; rewrite inject_Z_plus; change (inject_Z 1) with 1%Q; lra.
+Qed.
+
+(* C20_labels_proportion_partial: the same for the code (doubles), in terms of the percent np.percentile was asked for *)
+Lemma count_near_proportion N pc cnt : 1 <= N -> (0 <= pc)%Q -> (pc <= 100)%Q -> count_near N pc cnt ->
+  (pc / 100 - 2 / inject_Z N <= inject_Z cnt / inject_Z N)%Q /\ (inject_Z cnt / inject_Z N <= pc / 100 + 2 / inject_Z N)%Q.
+Proof.
+  intros HN H0 H1 [Hc _]. destruct (pc_unit pc H0 H1) as [Hq0 Hq1]. set (q := (pc / 100)%Q) in *.
+  set (vi := (inject_Z (N - 1) * q)%Q) in *.
+  pose proof (Qfloor_le vi) as Hf0. pose proof (Qlt_floor vi) as Hf1.
+  rewrite inject_Z_plus in Hf1. change (inject_Z 1) with 1%Q in Hf1.
+  assert (Evi : (vi == inject_Z N * q - q)%Q) by (unfold vi; rewrite inject_Z_sub; change (inject_Z 1) with 1%Q; ring).
+  destruct Hc as [Hc1 Hc2]. rewrite Zle_Qle in Hc1, Hc2. rewrite inject_Z_plus in Hc2. change (inject_Z 2) with 2%Q in Hc2.
+  apply div_bounds; [lia| |]; lra.
+Qed.
+
+(* ------------------------------------------------------------------------------------------ *)
+(* progress: when does categorical noise NOT raise (so that C20_noise_cat is not vacuous) *)
+
+Lemma res_cols_loop_not_raises (f : list Z -> list ans -> res (list Z * list ans)) (Q : list Z -> Prop) :
+  (forall c st, Q c -> f c st <> Raises) -> forall cols st, Forall Q cols -> cols_loop f cols st <> Raises.
+Proof.
+  intros Hf. induction cols as [|c r IH]; intros st HQ; cbn [cols_loop]; [discriminate|].
+  inversion HQ; subst. destruct (f c st) as [[c1 st1]| |] eqn:E1; [|exfalso; eapply Hf; eassumption|discriminate].
+  destruct (cols_loop f r st1) as [[r1 st2]| |] eqn:E2; [discriminate|exfalso; eapply IH; eassumption|discriminate].
+Qed.
+Lemma finish_not_raises {A} (r : res (A * list ans)) : r <> Raises -> finish r <> Raises.
+Proof. destruct r as [[a [|x st]]| |]; cbn [finish]; congruence. Qed.
+
+Lemma lookup_map_seq (F : nat -> Z * list Z) len : forall s i,
+  (forall j, (s <= j < s + len)%nat -> fst (F j) = Z.of_nat j) -> (s <= i < s + len)%nat ->
+  lookup (Z.of_nat i) (map F (seq s len)) = Some (snd (F i)).
+Proof.
+  induction len as [|len IH]; intros s i HF Hi; [lia|]. cbn [seq map lookup].
+  destruct (F s) as [k0 s0] eqn:E. assert (Hk : k0 = Z.of_nat s) by (specialize (HF s ltac:(lia)); rewrite E in HF; exact HF).
+  subst k0. destruct (Z.eqb_spec (Z.of_nat i) (Z.of_nat s)) as [Heq|Hne].
+  - assert (i = s) by lia. subst i. rewrite E. reflexivity.
+  - apply IH; [intros j Hj; apply HF; lia|lia].
+Qed.
+
+Lemma pyslice_nonempty l a b : 0 <= a -> a < b -> a < lenZ l -> pyslice l a b <> [].
+Proof.
+  intros Ha Hab Hl. unfold pyslice. unfold lenZ in Hl.
+  destruct (skipn (Z.to_nat a) l) as [|x r] eqn:E.
+  - exfalso. assert (Hlen : length (skipn (Z.to_nat a) l) = (length l - Z.to_nat a)%nat) by apply skipn_length.
+    rewrite E in Hlen. cbn [length] in Hlen. lia.
+  - destruct (Z.to_nat (b - a)) as [|k] eqn:Ek; [lia|]. cbn [firstn]. discriminate.
+Qed.
+Lemma dedup_nonempty l : l <> [] -> dedup l <> [].
+Proof.
+  destruct l as [|x r]; [congruence|]. intros _ E. assert (H : In x (dedup (x :: r))) by (apply dedup_In; now left).
+  rewrite E in H. destruct H.
+Qed.
+
+Lemma count_indicator_le1 x L : NoDup L -> zsum (map (fun v => if v =? x then 1 else 0) L) <= 1.
+Proof.
+  induction 1 as [|a r Hnotin Hnd IH]; cbn [map zsum fold_right]; [lia|]. fold (zsum (map (fun v => if v =? x then 1 else 0) r)).
+  destruct (Z.eqb_spec a x) as [->|Hne]; [|lia].
+  assert (E : zsum (map (fun v => if v =? x then 1 else 0) r) = 0).
+  { clear IH Hnd. induction r as [|b t IHt]; [reflexivity|]. cbn [map zsum fold_right]. fold (zsum (map (fun v => if v =? x then 1 else 0) t)).
+    destruct (Z.eqb_spec b x) as [->|_]; [exfalso; apply Hnotin; now left|]. rewrite IHt; [lia|]. intros H. apply Hnotin. now right. }
+  lia.
+Qed.
+Lemma counts_sum_le y : forall L, NoDup L -> zsum (map (fun v => countZ v y) L) <= lenZ y.
+Proof.
+  induction y as [|x r IH]; intros L HL.
+  - unfold lenZ. cbn [length]. induction L as [|a t IHt]; [cbn; lia|]. inversion HL; subst. cbn [map zsum fold_right].
+    fold (zsum (map (fun v => countZ v []) t)). specialize (IHt H2). unfold lenZ in IHt. cbn [length] in IHt.
+    change (countZ a []) with 0. lia.
+  - assert (E : zsum (map (fun v => countZ v (x :: r)) L) = zsum (map (fun v => if v =? x then 1 else 0) L) + zsum (map (fun v => countZ v r) L)).
+    { clear. induction L as [|a t IHt]; [reflexivity|]. cbn [map zsum fold_right].
+      fold (zsum (map (fun v => countZ v (x :: r)) t)). fold (zsum (map (fun v => if v =? x then 1 else 0) t)). fold (zsum (map (fun v => countZ v r) t)).
+      rewrite IHt, countZ_cons. lia. }
+    rewrite E. pose proof (count_indicator_le1 x L HL). specialize (IH L HL). unfold lenZ in *. cbn [length]. lia.
+Qed.
+
+Lemma zsum_firstn_S l : forall i, (i < length l)%nat -> zsum (firstn (S i) l) = zsum (firstn i l) + nth i l 0.
+Proof.
+  induction l as [|a r IH]; intros i Hi; cbn [length] in Hi; [lia|]. destruct i as [|i].
+  - cbn. lia.
+  - change (firstn (S (S i)) (a :: r)) with (a :: firstn (S i) r). change (firstn (S i) (a :: r)) with (a :: firstn i r).
+    cbn [zsum fold_right nth]. fold (zsum (firstn (S i) r)). fold (zsum (firstn i r)). rewrite IH by lia. lia.
+Qed.
+Lemma zsum_counts_nonneg y L : 0 <= zsum (map (fun v => countZ v y) L).
+Proof. induction L as [|a r IH]; cbn [map zsum fold_right]; [lia|]. fold (zsum (map (fun v => countZ v y) r)). pose proof (countZ_nonneg a y). lia. Qed.
+Lemma NoDup_firstn {A} k (l : list A) : NoDup l -> NoDup (firstn k l).
+Proof. intros H. rewrite <- (firstn_skipn k l) in H. apply NoDup_app_remove_r in H. exact H. Qed.
+Lemma firstn_map_c {A B} (f : A -> B) k l : firstn k (map f l) = map f (firstn k l).
+Proof. revert l. induction k as [|k IH]; intros [|a r]; cbn [firstn map]; try reflexivity. f_equal. apply IH. Qed.
+
+(* the per-label dictionary of a feature when the labels are exactly 0 .. K-1 *)
+Lemma upl_lookup cum fs y K i :
+  uniq y = zrange 0 K -> lenZ fs = lenZ y -> (i < K)%nat ->
+  (cum = false -> forall lab, In lab (uniq y) -> 2 <= countZ lab y) ->
+  exists s, lookup (Z.of_nat i) (upl cum fs (uniq y) (map (fun v => countZ v y) (uniq y))) = Some s /\ s <> [].
+Proof.
+  intros Hu Hfs Hi H2. set (lv := uniq y) in *. set (lc := map (fun v => countZ v y) lv).
+  assert (HK : length lv = K) by (rewrite Hu; apply zrange_length).
+  assert (Hnth : forall j, (j < K)%nat -> nth j lv 0 = Z.of_nat j) by (intros j Hj; rewrite Hu, zrange_nth by exact Hj; lia).
+  assert (Hc : forall j, (j < K)%nat -> nth j lc 0 = countZ (Z.of_nat j) y).
+  { intros j Hj. unfold lc. rewrite (nth_map_dflt _ _ _ 0) by lia. rewrite Hnth by exact Hj. reflexivity. }
+  assert (Hin : forall j, (j < K)%nat -> In (Z.of_nat j) lv) by (intros j Hj; rewrite <- Hnth by exact Hj; apply nth_In; lia).
+  assert (Hpos : forall j, (j < K)%nat -> 1 <= countZ (Z.of_nat j) y).
+  { intros j Hj. assert (0 < countZ (Z.of_nat j) y); [|lia]. apply countZ_pos. apply uniq_In. apply Hin. exact Hj. }
+  unfold upl. rewrite HK.
+  rewrite (lookup_map_seq _ K 0 i) by (try lia; intros j Hj; cbn [fst]; apply Hnth; lia).
+  eexists. split; [reflexivity|]. cbn [snd]. apply dedup_nonempty. rewrite (Hc i Hi).
+  destruct cum.
+  - (* repaired slices *)
+    assert (Hlen : (i < length lc)%nat) by (unfold lc; rewrite map_length; lia).
+    pose proof (zsum_firstn_S lc i Hlen) as ES. rewrite (Hc i Hi) in ES.
+    assert (Hle : zsum (firstn (S i) lc) <= lenZ y).
+    { unfold lc. rewrite firstn_map_c. apply counts_sum_le. apply NoDup_firstn. apply uniq_NoDup. }
+    assert (H0 : 0 <= zsum (firstn i lc)) by (unfold lc; rewrite firstn_map_c; apply zsum_counts_nonneg).
+    pose proof (Hpos i Hi). apply pyslice_nonempty; lia.
+  - (* slices as first read *)
+    specialize (H2 eq_refl). destruct i as [|i'].
+    + pose proof (Hpos 0%nat Hi) as Hp.
+      assert (Hle : countZ 0 y <= lenZ y).
+      { pose proof (counts_sum_le y [0] ltac:(repeat constructor; intros [])) as Hs. cbn [map zsum fold_right] in Hs. lia. }
+      change (Z.of_nat 0) with 0 in *. apply pyslice_nonempty; lia.
+    + assert (Hi' : (i' < K)%nat) by lia. rewrite (Hc i' Hi').
+      pose proof (H2 _ (Hin (S i') Hi)) as Hc2. pose proof (Hpos i' Hi') as Hp.
+      assert (Hle : countZ (Z.of_nat i') y + countZ (Z.of_nat (S i')) y <= lenZ y).
+      { pose proof (counts_sum_le y [Z.of_nat i'; Z.of_nat (S i')]) as Hs. cbn [map zsum fold_right] in Hs.
+        assert (Hnd : NoDup [Z.of_nat i'; Z.of_nat (S i')]) by (constructor; [intros [H|[]]; lia|repeat constructor; intros []]).
+        specialize (Hs Hnd). lia. }
+      apply pyslice_nonempty; lia.
+Qed.
